@@ -99,9 +99,14 @@ class InvalidateCreating(ConnSpec):
     """every object this connection had handed to the storage as NEW in the transaction and that is
     filed in the cache is removed from the cache and disowned; every other object is untouched"""
     func = CONN + '._invalidate_creating'
+    cases = ('own-set', 'given-set')
 
     def setup(self, c, case=None):
         w = CM.mk_conn(c)
+        if case == 'given-set':
+            g = prims.new_map(c, 'bytes8', 'bool', 'given_creating')
+            c.roles.array(c.obj(g).f['dom'], 'oid')
+            return {'self': w.self, 'creating': g}
         return {'self': w.self, 'creating': NONE}
 
     def requires(self, c, E):
@@ -117,7 +122,8 @@ class InvalidateCreating(ConnSpec):
         o = c.obj(w.cache)
         o.f['dom'] = z3.Array(fresh_name('cache_dom'), I, B)
         c.roles.array(o.f['dom'], 'oid')
-        c.obj(w.self).f['_creating'] = c.new_obj('pydict', meta={'pairs': []})
+        if isinstance(E['creating'], VNone):
+            c.obj(w.self).f['_creating'] = c.new_obj('pydict', meta={'pairs': []})
 
     def hit(self, c, u0, cache0, members):
         """lambda x: x is cached under its oid and that oid is among `members` (Array oid->Bool)"""
@@ -157,11 +163,22 @@ class InvalidateCreating(ConnSpec):
 
     def outcomes(self, c, E):
         w = world(c)
-        cr0 = c.obj(w.creating).f['dom']
+        given = E['creating']
+        if isinstance(given, VNone):
+            cr0 = c.obj(w.creating).f['dom']
+        elif isinstance(given, VRef) and c.obj(given).kind == 'map':
+            cr0 = c.obj(given).f['dom']
+        else:
+            raise Unsupported('_invalidate_creating(%r)' % (given,))
 
         def post(cc, E, r):
-            return self.effect(cc, E, cr0) + [
-                ('creating-set-forgotten', is_empty_dict(cc, cc.obj(w.self).f['_creating']))]
+            out = self.effect(cc, E, cr0)
+            if isinstance(given, VNone):
+                out.append(('creating-set-forgotten', is_empty_dict(cc, cc.obj(w.self).f['_creating'])))
+            else:
+                out.append(('own-creating-set-untouched', contract.same_value(
+                    cc, E.old[w.self.id]['_creating'], cc.obj(w.self).f['_creating'])))
+            return out
         return [Outcome('ok', result=lambda cc, E: NONE, post=post)]
 
 
@@ -900,6 +917,228 @@ class TpcVote(ConnSpec):
                 Outcome('read-conflict', 'raise', CM.ReadConflictError, post=post_conflict)]
 
 
+TMPSTORE = 'ZODB.Connection:TmpStore'
+
+
+def mk_tmpstore(c, w):
+    """the savepoint storage as the connection sees it: index oid -> position of its latest record,
+    creating oid -> flag, position (its own contracts are proved in C12: contracts.tmpstore)"""
+    idx = prims.new_map(c, 'bytes8', 'int', 'sp_index')
+    cr = prims.new_map(c, 'bytes8', 'bool', 'sp_creating')
+    for m_ in (idx, cr):
+        c.roles.array(c.obj(m_).f['dom'], 'oid')
+        c.roles.array(c.obj(m_).f['val'], 'oid')
+    src = inst(c, TMPSTORE, index=idx, creating=cr, position=c.fresh_int('sp_position'),
+               _storage=w.storage, _closed=VBool(False))
+    w.src, w.sp_index, w.sp_creating = src, idx, cr
+    S = c.obj(w.self).f
+    S['_storage'] = src
+    S['_savepoint_storage'] = src
+    return src
+
+
+def install_tmpstore_hooks(c, hk):
+    def reset(cc, args, kwargs, node):
+        # TmpStore.reset(position, index, creating): installs COPIES (proved in contracts.tmpstore)
+        me, pos, index, creating = args[0], args[1], args[2], args[3]
+        o = cc.obj(me)
+        for fld, src in (('index', index), ('creating', creating)):
+            so = cc.obj(src)
+            o.f[fld] = cc.new_obj('map', so.cls, dict(so.f), dict(so.meta))
+        o.f['position'] = pos
+        cc.event('tmpstore.reset', pos, index.id, creating.id)
+        return NONE
+    hk['call:' + TMPSTORE + '.reset'] = reset
+
+    def close(cc, args, kwargs, node):
+        cc.obj(args[0]).f['_closed'] = VBool(True)
+        cc.event('tmpstore.close')
+        return NONE
+    hk['call:' + TMPSTORE + '.close'] = close
+
+
+class RollbackSavepoint(ConnSpec):
+    """Connection._rollback_savepoint(state): registered objects are aborted; objects created after the
+    savepoint are disowned; every cached object with a record written AFTER the savepoint (position >=
+    the saved position) is a ghost, so that its savepoint state is loaded on next access; the savepoint
+    storage is reset to the saved state; every object not concerned keeps its attributes"""
+    func = CONN + '._rollback_savepoint'
+    props = ('C12', 'C11')
+
+    def setup(self, c, case=None):
+        w = CM.mk_conn(c)
+        mk_tmpstore(c, w)
+        sidx = prims.new_map(c, 'bytes8', 'int', 'saved_index')
+        scr = prims.new_map(c, 'bytes8', 'bool', 'saved_creating')
+        for m_ in (sidx, scr):
+            c.roles.array(c.obj(m_).f['dom'], 'oid')
+        w.saved = (c.fresh_int('saved_position'), sidx, scr)
+        return {'self': w.self, 'state': VTuple(list(w.saved))}
+
+    def hooks(self, c):
+        hk = ConnSpec.hooks(self, c)
+        install_tmpstore_hooks(c, hk)
+        return hk
+
+    def modifies(self, c, E):
+        w = world(c)
+        return self.universe_mods(c) | {(w.cache.id, 'dom'), (w.added.id, 'dom'),
+                                        (w.self.id, '_registered_objects'), (w.src.id, 'index'),
+                                        (w.src.id, 'creating'), (w.src.id, 'position')}
+
+    def outcomes(self, c, E):
+        w = world(c)
+        spos, sidx, scr = w.saved
+
+        def post(cc, E, r):
+            u0, u1 = E.old[w.objects.id], U(cc, w)
+            cache0, cache1 = E.old[w.cache.id], cc.obj(w.cache).f
+            added0 = E.old[w.added.id]
+            idx0, cr0 = E.old[w.sp_index.id], E.old[w.sp_creating.id]
+            scr_dom = cc.obj(scr).f['dom']
+            reg = E.old[w.registered.id]
+            oid0 = lambda x: sel(u0['oid'], x)
+            A = lambda x: z3.And(inlist(w, reg, x), sel(added0['dom'], oid0(x)))
+            after = lambda o: z3.And(sel(cr0['dom'], o), z3.Not(sel(scr_dom, o)))
+            CA = lambda x: z3.And(cached(u0, cache0, x), after(oid0(x)))
+            N = lambda x: z3.Or(A(x), CA(x))
+            written_after = lambda x: z3.And(cached(u0, cache0, x), sel(idx0['dom'], oid0(x)),
+                                             sel(idx0['val'], oid0(x)) >= spos.t)
+            modified = lambda x: z3.And(inlist(w, reg, x), z3.Not(sel(added0['dom'], oid0(x))),
+                                        cached(u0, cache0, x))
+            in_index = lambda x: z3.And(cached(u0, cache0, x), sel(idx0['dom'], oid0(x)))
+            S = cc.obj(w.self).f
+            src = cc.obj(w.src).f
+            ev = [e for e in cc.events if e[0] == 'tmpstore.reset']
+            return [
+                ('objects-created-after-the-savepoint-belong-to-no-database', All(['obj'], lambda x: z3.Implies(
+                    N(x), not_owned(u0, u1, x)))),
+                ('objects-written-or-modified-after-the-savepoint-are-ghosts', All(['obj'], lambda x: z3.Implies(
+                    z3.And(z3.Not(N(x)), z3.Or(written_after(x), modified(x))), ghostified(u0, u1, x)))),
+                ('objects-saved-before-the-savepoint-keep-their-identity', All(['obj'], lambda x: z3.Implies(
+                    z3.And(z3.Not(N(x)), in_index(x)),
+                    z3.And(sel(u1['oid'], x) == oid0(x), sel(u1['jar'], x) == sel(u0['jar'], x),
+                           sel(u1['serial'], x) == sel(u0['serial'], x),
+                           z3.Or(sel(u1['changed'], x) == -1,
+                                 sel(u1['changed'], x) == sel(u0['changed'], x)))))),
+                ('every-other-object-untouched', All(['obj'], lambda x: z3.Implies(
+                    z3.And(z3.Not(N(x)), z3.Not(in_index(x)), z3.Not(modified(x))), unchanged(u0, u1, x)))),
+                ('created-objects-leave-the-cache', All(['oid'], lambda o: z3.Implies(
+                    after(o), z3.Not(sel(cache1['dom'], o))))),
+                ('registered-list-emptied', is_empty_list(cc, S['_registered_objects'])),
+                ('savepoint-storage-reset-to-the-saved-state',
+                 len(ev) == 1 and ev[0][1] is spos and ev[0][2] == sidx.id and ev[0][3] == scr.id),
+            ]
+        return [Outcome('ok', result=lambda cc, E: NONE, post=post)]
+
+
+class CommitSavepointBody(ConnSpec):
+    """Connection._commit_savepoint (the real body; call sites use the frame contract above): on EVERY
+    exit - also when a store raises - the connection is back on its real storage, the savepoint storage
+    is closed, and the bookkeeping the abort path needs is complete: every oid of the savepoint index is
+    listed as modified and every object created in a savepoint is listed in _creating.  A normal
+    return means every oid of the index was stored in the storage transaction of this commit."""
+    func = CONN + '._commit_savepoint'
+    props = ('C12', 'C11')
+    callable_contract = False
+    label = 'body'
+
+    def setup(self, c, case=None):
+        w = CM.mk_conn(c)
+        CM.list_facts(c, c.obj(w.modified))
+        mk_tmpstore(c, w)
+        c.obj(w.self).f['_storage'] = w.src
+        c.obj(w.self).f['_log'] = prims.LOGGER
+        c.obj(w.self).f['_reader'] = c.fresh_opaque('reader')
+        w.stored = z3.K(I, z3.BoolVal(False))
+        c.ghost['txn_data'] = c.fresh_opaque('txn_data')
+        return {'self': w.self, 'transaction': c.ghost['txn_data']}
+
+    def requires(self, c, E):
+        return []
+
+    def hooks(self, c):
+        hk = ConnSpec.hooks(self, c)
+        install_tmpstore_hooks(c, hk)
+        base_method = hk['opaque_method']
+
+        def load(cc, args, kwargs, node):
+            return VTuple([cc.fresh_barr('sp_data'), cc.fresh_bytes(8, 'sp_serial')])
+        hk['call:' + TMPSTORE + '.load'] = load
+        hk['call:' + TMPSTORE + '.loadBlob'] = lambda cc, a, k, n: cc.fresh_opaque('blobfilename')
+
+        def method(cc, v, name, args, kwargs, node):
+            if v.tag == 'reader' and name == 'getGhost':
+                return cc.fresh_opaque('ghost_of_record')
+            return base_method(cc, v, name, args, kwargs, node)
+        hk['opaque_method'] = method
+        hk['opaque_isinstance'] = lambda cc, v, n: bool(cc.choose([True, True], 'is-a-blob') == 0) \
+            if v.tag == 'ghost_of_record' else None
+        return hk
+
+    def modifies(self, c, E):
+        w = world(c)
+        return {(w.self.id, '_storage'), (w.self.id, '_savepoint_storage'), (w.modified.id, '*'),
+                (w.creating.id, 'dom'), (w.creating.id, 'val'), (w.readCurrent.id, 'dom'),
+                (w.objects.id, 'changed'), (w.src.id, '_closed')}
+
+    def bookkeeping(self, cc, E):
+        w = world(cc)
+        S = cc.obj(w.self).f
+        idx0, cr0 = E.old[w.sp_index.id], E.old[w.sp_creating.id]
+        cr1 = cc.obj(w.creating).f
+        mod1 = cc.obj(w.modified).f
+        closed = cc.obj(w.src).f['_closed']
+        return [
+            ('back-on-the-real-storage', isinstance(S['_storage'], VRef) and S['_storage'].id == w.storage.id
+             and isinstance(S['_savepoint_storage'], VNone)),
+            ('savepoint-storage-closed', isinstance(closed, VBool) and as_z3_bool(closed.t)),
+            ('objects-created-in-savepoints-are-listed-as-created', All(['oid'], lambda o: z3.Implies(
+                sel(cr0['dom'], o), sel(cr1['dom'], o)))),
+            ('oids-of-the-savepoint-index-are-listed-as-modified', All(['oid'], lambda o: z3.Implies(
+                sel(idx0['dom'], o), sel(mod1['bag'], o) >= 1))),
+        ]
+
+    @property
+    def loops(self):
+        def hv(cc, fr):
+            w = world(cc)
+            u = U(cc, w)
+            u['changed'] = z3.Array(fresh_name('changed'), I, I)
+            cc.roles.array(u['changed'], 'obj')
+            o = cc.obj(w.readCurrent)
+            o.f['dom'] = z3.Array(fresh_name('rc_dom'), I, B)
+            w.stored = z3.Array(fresh_name('stored'), I, B)
+            cc.roles.array(w.stored, 'oid')
+
+        def inv(cc, fr):
+            w = world(cc)
+            cur = fr.locals.get('$iter0')
+            oids = fr.locals.get('oids')
+            if cur is None or not isinstance(oids, VRef):
+                return [('iterating-the-sorted-oids', False)]
+            lo = cc.obj(oids).f
+            return [('iterating-the-sorted-oids', z3.And(cur.arr0 == lo['arr'], cur.len0 == lo['len'])),
+                    ('oids-visited-so-far-are-stored', All(['sidx'], lambda i: z3.Implies(
+                        z3.And(i >= 0, i < cur.idx), sel(w.stored, sel(lo['arr'], i)))))] + \
+                self.bookkeeping(cc, cc.E)[2:]
+        none = lambda cc, fr: NONE
+        return {0: LoopSpec(inv=inv, havoc=hv, kinds={'data': none, 'serial': none, 'obj': none,
+                                                      'blobfilename': none})}
+
+    def outcomes(self, c, E):
+        w = world(c)
+
+        def post_ok(cc, E, r):
+            idx0 = E.old[w.sp_index.id]
+            return self.bookkeeping(cc, E) + [
+                ('every-oid-of-the-savepoint-index-was-stored-in-this-transaction', All(
+                    ['oid'], lambda o: z3.Implies(sel(idx0['dom'], o), sel(w.stored, o))))]
+        return [Outcome('ok', result=lambda cc, E: NONE, post=post_ok),
+                Outcome('store-failed', 'raise', 'builtins:Exception',
+                        post=lambda cc, E, x: self.bookkeeping(cc, E))]
+
+
 class Add(ConnSpec):
     """Connection.add: decision table over (connection open?, object's jar)"""
     func = CONN + '.add'
@@ -958,5 +1197,6 @@ class Add(ConnSpec):
 
 
 SPECS = [InvalidateCreating, TpcCleanup, AbortRegistered, Abort, TpcAbort, TpcFinish, Register_, Register,
-         Add_, Add, Close, Commit_, Savepoint, CommitSavepoint, Commit, TpcVote]
+         Add_, Add, Close, Commit_, Savepoint, CommitSavepoint, Commit, TpcVote, RollbackSavepoint]
+VARIANTS = [CommitSavepointBody]
 INLINE = [CONN + '.new_oid']
